@@ -100,6 +100,7 @@ class World12:
                 self.stats["faults"]["solver_" + step["fault"]] = self.stats["faults"].get("solver_" + step["fault"], 0) + 1
             except Exception as e:
                 out = "raised:" + type(e).__name__
+                self.unexpected_raise("solve", e, lambda fresh: self.handoff(fresh))
                 self.tainted = True
             self.seam.next_fault = None
             self.ever = True
@@ -121,6 +122,11 @@ class World12:
             except KeyError:
                 return "skipped"
             except Exception as e:
+                def redo(fresh, step=step):
+                    n2 = fresh.node(step.get("stage"))
+                    x2 = n2.syms.get(step.get("x")) if step.get("x") else None
+                    n2.ocp.sample(x2 if x2 is not None else n2.ocp.t, grid="control")
+                self.unexpected_raise("stage.sample", e, redo)
                 self.tainted = True
                 return "raised:" + type(e).__name__
         # specification ops
@@ -250,6 +256,19 @@ class World12:
                 return True
             return any(n not in node.syms for n in E.symbols_of(ast[2]) if not n.startswith("@"))
         return any(self._in_missing(x) for x in ast[1:])
+
+    def unexpected_raise(self, what, e, redo):
+        """is the specification itself ill-posed (then the direct rewrite raises too) or did templates / clones /
+        the history break the object?"""
+        if self.tainted:
+            return
+        try:
+            fresh = build(program(self.act.spec), "fresh")
+            redo(fresh)
+        except Exception:
+            self.probe("raise_shared_by_fresh_specification")
+            return
+        raise Violation("evolved-raises", "%s raises %s (%s) but works on the same content declared directly" % (what, type(e).__name__, str(e)[:200]))
 
     # -- oracle
     def handoff(self, act):
